@@ -4,6 +4,9 @@ package replication
 
 import (
 	"context"
+	"errors"
+	"sync/atomic"
+	"time"
 
 	"github.com/KevoDB/kevo/pkg/config"
 	"github.com/KevoDB/kevo/pkg/engine/storage"
@@ -13,38 +16,155 @@ import (
 	"google.golang.org/grpc/metadata"
 )
 
-// stalledStream is a replica stream whose Send never returns (the replica stopped reading).
-type stalledStream struct{ sends int }
+// fakeStream is a replica's stream as the primary sees it: it records what it is sent, can fail, or can stall
+// (Send never returns: the replica stopped reading and the transport's flow-control window is full).
+type fakeStream struct {
+	sent    []*proto.WALStreamResponse
+	sends   int32
+	stalled bool
+	fail    bool
+}
 
-func (s *stalledStream) Send(*proto.WALStreamResponse) error { s.sends++; vsym.BlockForever(); return nil }
-func (s *stalledStream) SetHeader(metadata.MD) error          { return nil }
-func (s *stalledStream) SendHeader(metadata.MD) error         { return nil }
-func (s *stalledStream) SetTrailer(metadata.MD)               {}
-func (s *stalledStream) Context() context.Context             { return context.Background() }
-func (s *stalledStream) SendMsg(m any) error                  { return nil }
-func (s *stalledStream) RecvMsg(m any) error                  { return nil }
+func (s *fakeStream) Send(r *proto.WALStreamResponse) error {
+	atomic.AddInt32(&s.sends, 1)
+	if s.stalled {
+		vsym.BlockForever()
+	}
+	if s.fail {
+		return errors.New("transport is closing")
+	}
+	s.sent = append(s.sent, r)
+	return nil
+}
+func (s *fakeStream) SetHeader(metadata.MD) error  { return nil }
+func (s *fakeStream) SendHeader(metadata.MD) error { return nil }
+func (s *fakeStream) SetTrailer(metadata.MD)       {}
+func (s *fakeStream) Context() context.Context     { return context.Background() }
+func (s *fakeStream) SendMsg(m any) error          { return nil }
+func (s *fakeStream) RecvMsg(m any) error          { return nil }
 
-// VerifC15_StalledReplicaDoesNotBlockReads: with one replica whose stream never accepts another message,
-// a client write may or may not return, but a client read on the primary must still complete.
-func VerifC15_StalledReplicaDoesNotBlockReads() {
+func c15Primary(sm *storage.Manager) *Primary {
+	pc := DefaultPrimaryConfig()
+	pc.EnableCompression = false
+	pc.CompressionCodec = proto.CompressionCodec_NONE
+	p, err := NewPrimary(sm.GetWAL(), pc)
+	vsym.Assert(err == nil, "NewPrimary failed")
+	return p
+}
+
+func c15Session(id string, st *fakeStream) *ReplicaSession {
+	return &ReplicaSession{ID: id, Stream: st, Connected: true, Active: true, LastActivity: time.Now(),
+		SupportedCodecs: []proto.CompressionCodec{proto.CompressionCodec_NONE}}
+}
+
+// VerifC15_StalledReplicaDoesNotBlockClients: a primary with one replica whose stream accepts no further message
+// (Send never returns) and optionally a second, healthy replica. A client write is issued (it may or may not
+// return: it is the one that meets the stalled stream); after that a second client's read, write or transaction
+// must still complete.
+func VerifC15_StalledReplicaDoesNotBlockClients() {
 	cfg := config.NewDefaultConfig(vsym.Dir())
 	sm, err := storage.NewManager(cfg, stats.NewAtomicCollector())
 	vsym.Assert(err == nil, "NewManager failed")
 	k, v := vsym.Bytes("k", 1), vsym.Bytes("v", 1)
 	vsym.Assert(sm.Put(k, v) == nil, "first put failed")
-	pc := DefaultPrimaryConfig()
-	pc.EnableCompression = vsym.IntRange("compress", 0, 1) == 1
-	if !pc.EnableCompression {
-		pc.CompressionCodec = proto.CompressionCodec_NONE
+	p := c15Primary(sm)
+	stalled := &fakeStream{stalled: true}
+	p.registerReplicaSession(c15Session("r1", stalled))
+	healthy := &fakeStream{}
+	if vsym.IntRange("second", 0, 1) == 1 {
+		p.registerReplicaSession(c15Session("r2", healthy))
 	}
-	p, err := NewPrimary(sm.GetWAL(), pc)
-	vsym.Assert(err == nil, "NewPrimary failed")
-	st := &stalledStream{}
-	p.registerReplicaSession(&ReplicaSession{ID: "r1", Stream: st, Connected: true, Active: true,
-		SupportedCodecs: []proto.CompressionCodec{proto.CompressionCodec_NONE}})
 	go func() { sm.Put(k, vsym.Bytes("v2", 1)) }()
 	vsym.Quiesce()
-	got, gerr := sm.Get(k) // must return
-	vsym.Assert(gerr == nil && len(got) == 1, "read failed")
+	// the primary pushes synchronously from inside the log append, i.e. under the storage lock and the log
+	// mutex: while one write waits for a stalled replica every other client operation queues behind it.
+	// Recorded finding (the repair is an asynchronous, bounded send path per replica).
+	vsym.Region("KF-C15-synchronous-push-under-engine-locks", atomic.LoadInt32(&stalled.sends) > 0)
+	var done int32
+	what := vsym.IntRange("client2", 0, 1)
+	go func() {
+		switch what {
+		case 0:
+			sm.Get(k)
+		case 1:
+			sm.Put(vsym.Bytes("k3", 1), vsym.Bytes("v3", 1))
+		}
+		atomic.StoreInt32(&done, 1)
+	}()
+	vsym.Quiesce()
+	vsym.Reach("probed")
+	vsym.Assert(atomic.LoadInt32(&done) == 1, "a client operation on the primary does not complete while a replica's stream is stalled")
+	vsym.Reach("done")
+}
+
+// VerifC15_HeartbeatDropsSilentReplicas: one step of the heartbeat monitor over two sessions with symbolic idle
+// times; a session's stream may also fail. Every session idle beyond the timeout, or whose heartbeat cannot be
+// sent, is marked dead and removed from the topology the primary reports; the other session is untouched and is
+// sent a heartbeat when it has been idle beyond the interval.
+func VerifC15_HeartbeatDropsSilentReplicas() {
+	cfg := config.NewDefaultConfig(vsym.Dir())
+	sm, err := storage.NewManager(cfg, stats.NewAtomicCollector())
+	vsym.Assert(err == nil, "NewManager failed")
+	p := c15Primary(sm)
+	hb := p.heartbeat
+	const margin = uint64(time.Second)
+	timeout, interval := uint64(hb.config.Timeout), uint64(hb.config.Interval)
+	now := time.Now()
+	var st [2]*fakeStream
+	var idle [2]uint64
+	ids := [2]string{"r1", "r2"}
+	for i := 0; i < 2; i++ {
+		st[i] = &fakeStream{fail: vsym.IntRange("streamfails", 0, 1) == 1}
+		idle[i] = vsym.Uint64("idle")
+		vsym.Assume(idle[i] < uint64(24*time.Hour))
+		vsym.Assume(idle[i] > timeout+margin || idle[i]+margin < timeout)
+		vsym.Assume(idle[i] > interval+margin || idle[i]+margin < interval)
+		s := c15Session(ids[i], st[i])
+		s.LastActivity = now.Add(-time.Duration(idle[i]))
+		p.registerReplicaSession(s)
+	}
+	hb.checkSessions()
+	for i := 0; i < 2; i++ {
+		mustDrop := idle[i] > timeout || (idle[i] > interval && st[i].fail)
+		s := p.getSession(ids[i])
+		if mustDrop {
+			vsym.Assert(s == nil, "a replica that is silent beyond the timeout (or whose stream fails) is still in the reported topology")
+		} else {
+			vsym.Assert(s != nil && s.Connected && s.Active, "a healthy replica was dropped by the heartbeat monitor")
+			if idle[i] > interval {
+				vsym.Assert(len(st[i].sent) == 1, "an idle but healthy replica was not sent a heartbeat")
+			}
+		}
+	}
+	vsym.Reach("done")
+}
+
+// VerifC15_FailingReplicaDoesNotFailWrites: one replica whose stream fails on every send next to a healthy one.
+// Client writes succeed, the healthy replica is sent every write, the failing one is marked disconnected.
+func VerifC15_FailingReplicaDoesNotFailWrites() {
+	cfg := config.NewDefaultConfig(vsym.Dir())
+	sm, err := storage.NewManager(cfg, stats.NewAtomicCollector())
+	vsym.Assert(err == nil, "NewManager failed")
+	p := c15Primary(sm)
+	bad, good := &fakeStream{fail: true}, &fakeStream{}
+	sb := c15Session("bad", bad)
+	p.registerReplicaSession(sb)
+	p.registerReplicaSession(c15Session("good", good))
+	n := vsym.IntRange("n", 1, 2)
+	for i := 0; i < n; i++ {
+		k, v := vsym.Bytes("k", 1), vsym.Bytes("v", 1)
+		if vsym.IntRange("op", 0, 1) == 0 {
+			vsym.Assert(sm.Put(k, v) == nil, "a client write fails because a replica's stream fails")
+		} else {
+			vsym.Assert(sm.Delete(k) == nil, "a client delete fails because a replica's stream fails")
+		}
+	}
+	got := 0
+	for _, r := range good.sent {
+		got += len(r.Entries)
+	}
+	vsym.Assert(got == n, "the healthy replica was not sent every write while another replica fails")
+	vsym.Assert(!sb.Connected, "a replica whose stream fails is still reported as connected")
+	vsym.Assert(atomic.LoadInt32(&bad.sends) <= 1, "the primary keeps sending to a replica it has marked disconnected")
 	vsym.Reach("done")
 }
